@@ -1,7 +1,7 @@
 (* C11 model driver.  One case per line:
      <id> E <ty...> ; <val...>        encode a typed value
      <id> D <nd> <unl> <ty...> ; <hex>  parse bytes (nd: NDEBUG build, unl: stream without limit)
-   types : b i8 i16 i32 u8 u16 u32 i64 u64 en f32 f64 str ( vec T ) ( list T ) ( set T ) ( map K V )
+   types : b i8 i16 i32 u8 u16 u32 i64 u64 en en8 enu8 enu32 en64 enu64 f32 f64 str ( vec T ) ( list T ) ( set T ) ( map K V )
            ( arr N T ) ( up T ) ( sp T ) ( agg N1 T1 N2 T2 ... )
    values: decimal | s<hex> | [ v ... ] | N | P v *)
 let rec z_of_string (s : string) : z =
@@ -35,7 +35,8 @@ let rec parse_ty (toks : string list) : ty * string list =
   | "b" :: r -> (TS KBool, r) | "i8" :: r -> (TS KI8, r) | "i16" :: r -> (TS KI16, r)
   | "i32" :: r -> (TS KI32, r) | "u8" :: r -> (TS KU8, r) | "u16" :: r -> (TS KU16, r)
   | "u32" :: r -> (TS KU32, r) | "i64" :: r -> (TS KI64, r) | "u64" :: r -> (TS KU64, r)
-  | "en" :: r -> (TS KEnum, r) | "f32" :: r -> (TS KF32, r) | "f64" :: r -> (TS KF64, r)
+  | "en" :: r -> (TS KEnum, r) | "en8" :: r -> (TS KE8, r) | "enu8" :: r -> (TS KEU8, r)
+  | "enu32" :: r -> (TS KEU32, r) | "en64" :: r -> (TS KE64, r) | "enu64" :: r -> (TS KEU64, r) | "f32" :: r -> (TS KF32, r) | "f64" :: r -> (TS KF64, r)
   | "str" :: r -> (TStr, r)
   | "(" :: "vec" :: r -> let (e, r) = parse_ty r in (TVec e, close r)
   | "(" :: "list" :: r -> let (e, r) = parse_ty r in (TList e, close r)
